@@ -261,16 +261,19 @@ def lib_table(vec, look, lib, conc, out):
             for ai, approx in enumerate((False, True)):
                 allowed = vec['vl'][i][k][ai]
                 for fn, tbl in (('vlookup', T), ('hlookup', TT)):
-                    got = call(lib[fn], v_c, tbl, ri, approx)
-                    out.evals += 1
-                    if not cell_ok(got, allowed, conc):
-                        out.bad(f'{fn.upper()} (library call) '
-                                f'[{classify(a_c, v_c, "lib")}]: index {ri}, '
-                                f'range_lookup {approx}: got {got!r}, '
-                                f'allowed {cc(allowed)}',
-                                dict(fn=fn, v=v_c, table=tbl, index=ri,
-                                     approx=approx, allowed=cc(allowed),
-                                     got=repr(got)))
+                    # (an index with a fraction is read as its whole part:
+                    # Lookup.tla WholePart)
+                    for idx in ((ri, ri + 0.5) if ri >= 0 else (ri,)):
+                        got = call(lib[fn], v_c, tbl, idx, approx)
+                        out.evals += 1
+                        if not cell_ok(got, allowed, conc):
+                            out.bad(f'{fn.upper()} (library call) '
+                                    f'[{classify(a_c, v_c, "lib")}]: index {idx}, '
+                                    f'range_lookup {approx}: got {got!r}, '
+                                    f'allowed {cc(allowed)}',
+                                    dict(fn=fn, v=v_c, table=tbl, index=idx,
+                                         approx=approx, allowed=cc(allowed),
+                                         got=repr(got)))
         forms = [('lookup vector form', (tuple((x,) for x in a_c),
                                          tuple((r[-1],) for r in T)), vec['lv'][i]),
                  ('lookup vector form (rows)', ((tuple(a_c),),
@@ -293,7 +296,11 @@ def lib_table(vec, look, lib, conc, out):
         r = -1 if rk == n + 1 else rk + 1
         for ck, allowed in enumerate(rowset):
             c = -1 if ck == w + 1 else ck + 1
-            for form, args in (('T', (T, r, c)), ('transposed', (TT, c, r))):
+            forms = [('T', (T, r, c)), ('transposed', (TT, c, r))]
+            if r > 0 and c > 0:
+                forms += [('T, fractions', (T, r + 0.5, c + 0.25)),
+                          ('transposed, fractions', (TT, c + 0.75, r + 0.5))]
+            for form, args in forms:
                 got = call(lib['index'], *args)
                 out.evals += 1
                 if not cell_ok(got, allowed, conc):
